@@ -57,7 +57,12 @@ SPEC = {
         # a call cycle satisfying the hypotheses, and the seeded memoising DFS (Model/MemoDfs.lean) order dependent on one
         "usage_recurse_shape_as_modelled", "usage_fixpoint_total_and_order_independent",
         "usage_fixpoint_order_independent_on_cycle", "memo_dfs_order_dependent_on_cycle",
-        "memo_dfs_set_order_dependent_on_cycle"]] + [
+        "memo_dfs_set_order_dependent_on_cycle",
+        # several KINDS of implicit parameters in one closed usage set (lane index / lane count / mesh output / globals):
+        # order independence for every program and set, an instance with the regenerated variant order and intrinsic
+        # table, and the self-mutation `sort the globals only` order dependent exactly when two built-in kinds meet
+        "required_kinds_order_independent", "required_kinds_instance", "globals_only_sort_order_dependent",
+        "sortGlobalsOnly_eq_on_globals"]] + [
         "RsslVerif.Lemmas.EnumRange.foldl_perm_of_invariant",
         # the two non-trivial sites are proved order independent over the models of the code itself
         "RsslVerif.Thm.C02.closure_order_independent",      # usage-analysis fixpoint (recurse) vs key iteration order;
